@@ -104,7 +104,12 @@ class UNet(nn.Module):
             )
         )
 
-        x_in_shape = int(filters * (filters_rate ** (down_blocks + stem_blocks)))
+        # Without the middle block the encoder output keeps the filters of the last
+        # down block (one `filters_rate` step fewer).
+        x_in_shape = int(
+            filters
+            * (filters_rate ** (down_blocks + stem_blocks - (0 if middle_block else 1)))
+        )
 
         self.dec = Decoder(
             x_in_shape=x_in_shape,
@@ -146,7 +151,9 @@ class UNet(nn.Module):
     @property
     def max_channels(self):
         """Returns the maximum channels of the UNet (last layer of the encoder)."""
-        return self.dec.x_in_shape
+        return int(
+            self.filters * (self.filters_rate ** (self.down_blocks + self.stem_blocks))
+        )
 
     def forward(self, x: torch.Tensor) -> Tuple[List[torch.Tensor], List]:
         """Forward pass through the U-Net architecture.
